@@ -191,7 +191,7 @@ fn run_program(program: &Program, env: &WorkerEnv, flag: Arc<AtomicBool>) -> Res
             let lines: Vec<&str> = text.lines().collect();
             let (i, j) = (*i, 2 * *i + 2);
             // (file names reach the event log through error reports: only inside the chroot jail are they the same on
-            // every worker; elsewhere, and under the scheduler of mode B, the program runs as one text)
+            // every worker; elsewhere the program runs as one text)
             if j > lines.len() || !env.chrooted {
                 let (r, _) = c03::run_real(&c, env, "run", Some(flag));
                 return end_of(r);
@@ -692,6 +692,7 @@ fn mode_b(program: &Program, env: &WorkerEnv, sched: &str, sched_seed: u64, yiel
     let program2 = program.clone();
     let jail_root = env.jail_root.clone();
     let worker_id = env.worker_id;
+    let chrooted = env.chrooted;
     let sched = sched.to_string();
     // the scheduled execution: runner + halter under shuttle's scheduler, on this same thread
     let scheduled = {
@@ -716,7 +717,7 @@ fn mode_b(program: &Program, env: &WorkerEnv, sched: &str, sched_seed: u64, yiel
             let result3 = result2.clone();
             let jail = jail_root.clone();
             let runner = shuttle::thread::spawn(move || {
-                let wenv = WorkerEnv { worker_id, jail_root: jail, chrooted: false, duck: None, avoid: vec![] };
+                let wenv = WorkerEnv { worker_id, jail_root: jail, chrooted, duck: None, avoid: vec![] };
                 let end = run_program(&program3, &wenv, flag_r);
                 sim::with_core(|c| c.note("runner-returned"));
                 *result3.lock().unwrap() = Some(end);
@@ -878,7 +879,7 @@ impl Prop for C13 {
             real: &["duckscript::runner (poll site, result handling)", "duckscript::parser", "Env.halt: the std Arc<AtomicBool>", "SDK flow control (while/for/if/function/goto) in Sdk programs"],
             stub: &["harness commands (scripted answers, emit, cnd)", "OS scheduler (replaced by shuttle in mode B)", "out/err streams"],
             assumptions: &["a store that lands between a poll and the next command start is observationally the same as one landing inside that command (both are covered)", "mode B: the runner thread yields only inside decorated invocations and stream writes"],
-            needs_jail: false,
+            needs_jail: true,
             needs_duck: false,
             expected_probes: &["halt-before", "halt-after", "halt-handler", "halt-nested", "halt-on-back-edge", "halt-on-forward-jump", "halt-on-last-instruction", "halt-from-thread", "halt-on-loop-end-command", "halt-raised-through-the-only-handle"],
         }
